@@ -170,28 +170,12 @@ impl<R: DynamicChannelRegion> RegionHandler for DynamicChannelPlan<R> {
         ch_mask_ctl: u8,
         ch_mask: ChannelMask<2>,
     ) -> Option<()> {
+        // Dynamic channel plans have at most 16 channels: ChMaskCntl 0 addresses them, 6 switches
+        // all defined channels on, every other value is RFU in these regions.
         match ch_mask_ctl {
-            0..=4 => {
-                let base_index = ch_mask_ctl as usize * 2;
-                channel_mask.set_bank(base_index, ch_mask.get_index(0));
-                // ChMaskCntl 4 addresses channels 64..=71 only: the upper byte is RFU and the
-                // 72-channel mask has no bank for it
-                if base_index + 1 < 9 {
-                    channel_mask.set_bank(base_index + 1, ch_mask.get_index(1));
-                }
-            }
-            5 => {
-                let ch_mask: u16 =
-                    ch_mask.get_index(0) as u16 | ((ch_mask.get_index(1) as u16) << 8);
-                channel_mask.set_bank(0, ((ch_mask & 0b1) * 0xFF) as u8);
-                channel_mask.set_bank(1, ((ch_mask & 0b10) * 0xFF) as u8);
-                channel_mask.set_bank(2, ((ch_mask & 0b100) * 0xFF) as u8);
-                channel_mask.set_bank(3, ((ch_mask & 0b1000) * 0xFF) as u8);
-                channel_mask.set_bank(4, ((ch_mask & 0b10000) * 0xFF) as u8);
-                channel_mask.set_bank(5, ((ch_mask & 0b100000) * 0xFF) as u8);
-                channel_mask.set_bank(6, ((ch_mask & 0b1000000) * 0xFF) as u8);
-                channel_mask.set_bank(7, ((ch_mask & 0b10000000) * 0xFF) as u8);
-                channel_mask.set_bank(8, ((ch_mask & 0b100000000) * 0xFF) as u8);
+            0 => {
+                channel_mask.set_bank(0, ch_mask.get_index(0));
+                channel_mask.set_bank(1, ch_mask.get_index(1));
             }
             6 => {
                 // all channels on
